@@ -63,6 +63,24 @@ UndoSteps(t, r, mode) ==
 ImageQ(r, tn, td, P, D) == LET x == P[1] * td + tn[1] * D   y == P[2] * td + tn[2] * D
                            IN <<r[1] * x - r[2] * y, r[2] * x + r[1] * y>>
 
+(* ---- histories of motions ---------------------------------------------------------------------------------- *)
+(* A second motion is a motion like the first one: applied to the same object it maps the CURRENT points, i.e. the   *)
+(* original p ends at R(R(p + t1) + t2) (numerators over den^2, same angle token); applied to another object it is    *)
+(* judged by Image alone.  What happened before in the same process must not matter.                                   *)
+(* Sequences use pairs of translations that differ in one component by -1 vs -2.                                      *)
+SeqPairs == { << <<-1, 3>>, <<-2, 3>> >>, << <<3, -1>>, <<3, -2>> >> }
+Partner(tt) == (CHOOSE pr \in SeqPairs : pr[1] = tt)[2]
+SeqSteps(tt, r, mode) == IF mode = "seq-same" THEN << <<Partner(tt)[1], Partner(tt)[2], 1, r>> >>
+                         ELSE << <<Partner(tt)[1], Partner(tt)[2], 1, r>>, <<tt[1], tt[2], 1, r>> >>     \* "seq-other": 3 motions
+Image2(r, t1, t2, p) == ImageQ(r, t2, 1, Image(r, t1, p), r[3])                  \* over den * den
+AngleSum2(o, r) == AngleSum(AngleSum(o, r), r)                                   \* over o[3] * den * den
+(* two motions with one angle are one motion: rotation 2a, translation t1 + R(-a) t2 (checked for small den)          *)
+ComposeLaw(r, t1, t2, p) ==
+    LET d == r[3]  c2 == r[1] * r[1] - r[2] * r[2]  s2 == 2 * r[1] * r[2]           \* cos 2a, sin 2a over d^2
+        u == <<r[1] * t2[1] + r[2] * t2[2], r[1] * t2[2] - r[2] * t2[1]>>            \* R(-a) t2 over d
+        x == d * (p[1] + t1[1]) + u[1]   y == d * (p[2] + t1[2]) + u[2]              \* p + t1 + R(-a) t2 over d
+    IN <<d * Image2(r, t1, t2, p)[1], d * Image2(r, t1, t2, p)[2]>> = <<c2 * x - s2 * y, s2 * x + c2 * y>>
+
 (* ---- laws (checked by TLC in MC_Transform) ---------------------------------------------------------------- *)
 Dist2(p, q) == (p[1] - q[1]) * (p[1] - q[1]) + (p[2] - q[2]) * (p[2] - q[2])
 Safe(r, p, q) == Dist2(p, q) <= 2000000000 \div (r[3] * r[3])          \* den^2 * dist^2 fits into 32 bit
